@@ -44,6 +44,9 @@ func (d *DBFT[H]) sendPrepareRequest(force bool) {
 
 	d.PreparationPayloads[d.MyIndex] = msg
 	d.broadcast(msg)
+	// Responses (and commits) can reach the primary before it proposes,
+	// drop those that do not match the proposal it has just made.
+	d.updateExistingPayloads(msg)
 
 	d.prepareSentTime = d.Timer.Now()
 
